@@ -84,7 +84,8 @@ def reply_variants(rnd, tier):
                 'prefix_ok', ['lit', 's3pPLMBiTxaQ9kYGzzhZRbK+xOo='], ['lit', '*'], ['lit', 'AA=']):
         out.append(('wrong-accept:%s' % (acc if isinstance(acc, str) else acc[1][:4]), dict(accept=acc), 'rejected'))
     # wrong upgrade
-    for up in (None, 'h2c', 'websocket2', 'web socket', '', 'websocket, foo'):
+    for up in (None, 'h2c', 'websocket2', 'web socket', '', 'websocket, foo', '{websocket}', 'websocket{}', '{0}', 'web{socket',
+               '}{', '{upgrade_header!r}'):
         exp = 'rejected'
         out.append(('wrong-upgrade:%r' % up, dict(upgrade=up), exp))
     # status codes
@@ -100,6 +101,10 @@ def reply_variants(rnd, tier):
     out.append(('dup-upgrade', dict(dups=[('Upgrade', 'websocket')]), 'unjudged'))
     out.append(('dup-accept', dict(dups=[('Sec-WebSocket-Accept', 'xyz')]), 'unjudged'))
     # combos
+    # values that look like format strings in every field a server controls
+    out.append(('ok-braces-in-other-headers', dict(reason='OK {} {0}', extra=[('Server', '{x} {} }{'), ('Sec-WebSocket-Protocol', 'chat')]), 'ready'))
+    out.append(('status-braces', dict(status='{}', reason='{}'), 'rejected'))
+    out.append(('wrong-accept:braces', dict(accept=['lit', '{0}{}']), 'rejected'))
     out.append(('status200+ok-accept', dict(status=200, reason='OK'), 'rejected'))
     out.append(('101+wrong-accept+wrong-upgrade', dict(accept='other_key', upgrade='h2c'), 'rejected'))
     return out
@@ -113,6 +118,8 @@ def cases(tier, seed, i, n):
                 yield dict(kind='req', url=ui, opt=oi)
         yield dict(kind='keys', n=200, same=True)
         yield dict(kind='keys', n=200, same=False)
+        for fk in ('reset', 'timeout', 'runtime', 'eintr-partial'):
+            yield dict(kind='keys', n=60, same=True, faults=fk)
         vs = reply_variants(rnd, tier)
         for vi, (fam, spec, exp) in enumerate(vs):
             for seg in ('one', 'bytewise', 'frames-same-read'):
@@ -225,13 +232,23 @@ def run_keys(case, acc):
     keys = []
     ws = None
     for j in range(case['n']):
-        w = H.World(H.hs_server([('eof',)]))
+        fl = {}
+        if case.get('faults') and j % 3 == 1:
+            fl = {('sendall', 0): case['faults']}       # the upgrade request write of this attempt fails
+        w = H.World(H.hs_server([('eof',)]), faults=fl)
         if case['same'] and ws is not None:
             run = H.drive(w, ws=ws, connect_kwargs=dict(ping_rate=0))
         else:
             run = H.drive(w, connect_kwargs=dict(ping_rate=0))
             ws = run.ws
         raw = bytes(w.conns[0].tx)
+        if fl:
+            # the request (or part of it) may not have reached the wire; what the client WOULD send is its key
+            k = bytes(run.ws.key)
+            keys.append(k)
+            acc.count2('request', 'keys_compared')
+            acc.count2('request', 'keys_after_failed_request_write')
+            continue
         k = refhttp.request_key(raw)
         keys.append(k)
         acc.count2('request', 'keys_compared')
